@@ -171,7 +171,7 @@ func saturatingCall(p *Prog, e *Env, call *ssa.Call, self string, depth int) (st
 			for a, k := range l.c {
 				if k > 0 {
 					pos++
-					if k != 1 || a != "P:"+par.Name() {
+					if k != 1 || a != "P:"+paramName(par) {
 						good = false
 					}
 				} else if !nonNegAtom(a) {
